@@ -140,6 +140,34 @@ Example C08_refused_nonvacuous :
 Proof. repeat split; vm_compute; reflexivity. Qed.
 
 (* ------------------------------------------------------------------ *)
+(** ** The consumer declares its own [NoGrid] data shape *)
+
+(** A link between two [NoGrid]s is established only if they are compatible ([nogrid_compatible]:
+    equal data shapes, a flexible axis only matches a flexible axis; otherwise the exchange fails
+    with a metadata error and no data crosses - [c08_model] answers [OExchErr]).  On an
+    established link every accepted payload arrives with one leading time entry and a shape that
+    fits the CONSUMER's declared data shape (fixed axes agree, flexible axes take any length). *)
+Theorem C08_consumer_shape :
+  forall (inf : info) (ui : uspec) (p : payload) (f : form) (dsh dsh' : list (option nat)),
+    i_grid inf = GNo dsh -> nogrid_compatible dsh dsh' = true ->
+    wf_arr (p_arr p) -> wf_mask inf (cell (i_grid inf) (a_shape (p_arr p)) f) ->
+    has_form (i_grid inf) (a_shape (p_arr p)) f -> units_ok inf p -> mask_ok (i_mask inf) (p_arr p) = true ->
+    compatible (i_units inf) ui = true ->
+    exists e d c,
+      prepare inf p = POk e /\ deliver (GNo dsh') ui e = RArr d ui
+      /\ a_shape d = 1%nat :: c /\ shape_valid c dsh' = true.
+Proof. exact consumer_shape. Qed.
+
+Example C08_consumer_shape_nonvacuous :
+  let inf := mkI (GNo [Some 2; None]%nat) ex_m MFlex in
+  nogrid_compatible [Some 2; None]%nat [Some 2; None]%nat = true
+  /\ nogrid_compatible [None; None] [Some 2; None]%nat = false          (* flexible producer -> fixed consumer: refused *)
+  /\ nogrid_compatible [Some 2; None]%nat [None; None] = false
+  /\ has_form (i_grid inf) [2; 5]%nat FShaped
+  /\ c08_model (mkC (mkI (GNo [None]) ex_m MFlex) [mkCo ex_m None (Some [Some 3%nat])], [LPull 0 0%Z]) = [OExchErr].
+Proof. repeat split; vm_compute; reflexivity. Qed.
+
+(* ------------------------------------------------------------------ *)
 (** ** Producer and consumer store the same structured grid in different layouts *)
 
 (** When the layouts (axes order [l_rev], axis directions [l_inc]) of the two ends differ, the pull
@@ -207,7 +235,7 @@ Proof. exact shares_self. Qed.
 Example C08_sharing_nonvacuous :
   let inf := mkI (GNo [None]) ex_m MFlex in
   let pl b u := mkP (mkA [2]%nat [1; 2]%Q None) u b in
-  lrun (mkC inf [mkCo ex_m None]) (linit (mkC inf [mkCo ex_m None]))
+  lrun (mkC inf [mkCo ex_m None None]) (linit (mkC inf [mkCo ex_m None None]))
     [LPush 0 (pl (Some (0%nat, 0, 16)%Z) None);     (* a *)
      LPush 1 (pl (Some (0%nat, 0, 16)%Z) None);     (* a again: refused *)
      LPush 2 (pl (Some (0%nat, 8, 24)%Z) None);     (* overlapping view: refused *)
@@ -222,6 +250,7 @@ Print Assumptions C08_link_pull.
 Print Assumptions C08_payload.
 Print Assumptions C08_payload_refused.
 Print Assumptions C08_forms_exact.
+Print Assumptions C08_consumer_shape.
 Print Assumptions C08_relayout.
 Print Assumptions C08_relayout_same_cell.
 Print Assumptions C08_sharing.
